@@ -66,11 +66,12 @@ POSTCONDITION TraceAccepted
 CHECK_DEADLOCK FALSE
 """
 
-ACTIONS = ["Call", "Stat", "OpenR", "Load", "Doit", "OpenW", "Write", "Close", "Replace", "Return", "Crash", "Plant"]
+ACTIONS = ["Call", "EnsureDir", "Stat", "OpenR", "Load", "Doit", "OpenW", "Write", "Close", "Replace", "Return", "Crash", "Plant"]
 
 
 def behaviour_to_schedule(beh):
-    steps = []
+    # the behaviour's initial state says whether the cache directory exists before the first call
+    steps = [] if beh[0].get("state", {}).get("dir", True) else [["nodir"]]
     for st in beh[1:]:
         a, args = st["action"], st["args"]
         if a == "Call":
@@ -116,6 +117,12 @@ def enumerated_schedules(tier, rng, sizes):
     for a in exprs:
         for what in ("garbage", "truncated", "empty-ish", "foreign", "oldformat") + DAMAGED_KINDS:
             out.append([["plant", 0, a, what], ["call", 1, a], ["run", 1], ["call", 2, "e2" if a == "e1" else "e1"], ["run", 2], ["call", 3, a], ["run", 3]])
+    # (f) first use: the cache directory does not exist yet and two processes arrive at once; the second one runs to the end
+    #     after the first has done `cut` of its operations
+    for cut in range(0, 4):
+        for b in ("e1", "e2", "e3"):
+            out.append([["nodir"], ["call", 1, "e1"]] + [["step", 1, ""]] * cut + [["call", 2, b], ["run", 2], ["run", 1], ["call", 3, "e1"], ["run", 3]])
+    out.append([["nodir"], ["call", 1, "e3"], ["run", 1], ["call", 2, "e3"], ["run", 2]])
     # (d) hand-picked interleavings of two processes on one key (reader during write, double writers)
     w = ["Stat", "OpenW", "Write", "Write", "Close", "Replace", "Return"]
     for cut in range(1, 7):
@@ -154,7 +161,7 @@ def run(chk, replay=None):
     rng = random.Random(chk.seed)
     chk.assume(
         "TLC/SANY; POSIX semantics of open/replace as modelled with inodes in CacheFS.tla",
-        "interposition covers builtins.open/io.open, os.open(O_CREAT), os.stat, os.replace/rename, os.unlink on the cache directory",
+        "interposition covers builtins.open/io.open, os.open(O_CREAT), os.stat, os.replace/rename, os.unlink in the cache directory and os.mkdir / os.stat of the directory itself",
         "a killed process = SIGKILL between two interposed operations, or after n bytes of a buffered write reached the file",
         "pickle of an entry is written in 2 chunks for interleaving purposes (byte-exact only for the crash-prefix family)",
     )
@@ -171,7 +178,10 @@ def run(chk, replay=None):
     res_dev = tlc.run("CacheFS_MC", MC_CFG.format(calls=3, crashes=1, dev="DevPinned", invs=INVS), workers=4, timeout=600)
     if res_dev.ok:
         raise Machinery("model is insensitive: deviations InPlaceWrite/UncheckedLoad do not violate the invariants")
-    chk.part("deviation_sensitivity", violated=res_dev.violated, states=res_dev.distinct)
+    res_dev2 = tlc.run("CacheFS_MC", MC_CFG.format(calls=2, crashes=0, dev="DevCheckThenMkdir", invs="INVARIANT NeverRaises\n"), workers=4, timeout=600)
+    if res_dev2.ok:
+        raise Machinery("model is insensitive: deviation CheckThenMkdir does not violate NeverRaises")
+    chk.part("deviation_sensitivity", violated=res_dev.violated, states=res_dev.distinct, CheckThenMkdir=res_dev2.violated)
 
     # 1c. unbounded in the length of the history: an inductive invariant of the design (Apalache), thorough tier
     if tier == "thorough":
@@ -205,7 +215,7 @@ def run(chk, replay=None):
         out = run_executor(binding, hs, scen)
         recs = [{"ev": "Header", "keyof": out["keyof"], "tid": 0}]
         for tid, evs in enumerate(out["traces"]):
-            recs.append({"ev": "Start", "tid": tid})
+            recs.append({"ev": "Start", "tid": tid, "dir": 0 if scen[tid] and scen[tid][0][0] == "nodir" else 1})
             for e in evs:
                 e = dict(e)
                 e["tid"] = tid
